@@ -15,9 +15,13 @@
       for ANY history of operations the accumulated index is strictly increasing, contains every
       requested later point exactly once, every segment is the solution from the previous final
       state (override applied) under the parameters in force, refusal iff end <= reached.
-    It is FALSE of the code (hence of the faithful model) in ONE situation, recorded as a known
+    It is FALSE of the code (hence of the faithful model) in TWO situations, each recorded as a known
     finding with a machine-checked refutation below:
-      - a steady-state run in the history           ([C04_steady_refuted]).
+      - a steady-state run in the history           ([C04_steady_refuted]);
+      - a view of get_result() read between a parameter update and the next simulating call: the read
+        undoes the update ([C04_view_reverts_update_refuted]; repair proposed, fixes/C04-views-restore-parameters.diff;
+        full statement [C04_views_read_only] for the repaired views, [C04_views_read_only_partial] for the tree;
+        see the last section of this file).
     The [_partial] theorems carry exactly this guard: [Forall no_steady ops] for whole histories
     (REFINED at the end of this file to [ok_hist]: steady-state runs are admitted when they are issued
     on an integrator at its own time 0 and directly followed by update_variable(s) / clear_results --
@@ -30,7 +34,7 @@
     Rows are stated in ABSOLUTE time: [appended .. s s' h rest] says the new rows are
     [(t + shift, flow p (h + shift) y0 (t - h))] with [h + shift == reached s]. *)
 From Coq Require Import QArith List Bool NArith.
-From Sim Require Import Integrator Simulator Protocol SimExec GenSimFacts SimProofs ProtocolProofs SteadyProofs.
+From Sim Require Import Integrator Simulator Protocol Views Variants SimExec ViewsExec GenSimFacts ExpectedFacts SimProofs ProtocolProofs SteadyProofs StampProofs ViewsProofs.
 Import ListNotations.
 Open Scope Q_scope.
 
@@ -341,3 +345,158 @@ Example C04_steady_override_nonvacuous :
      = [[[-9999; -150]]; [[-19595 # 2; 1]; [-9595; 1]]].
 Proof. cbv zeta. split; [cbn; auto|]. vm_compute. split; reflexivity. Qed.
 Print Assumptions C04_steady_override_nonvacuous.
+
+(** * second deepening pass: the exact time stamp of a steady-state row; reading views between simulation calls *)
+
+(** EXACT stamp (strengthens [C04_steady_on_fresh_integrator], which only bounds it from below): a steady-state run
+    on an integrator at its own time 0 that finds a steady state stamps its row in ABSOLUTE time at
+    reached + (k+1) * 100 for some k < 1000 -- the search proceeds in whole steps from the time already reached *)
+Theorem C04_steady_stamp_exact :
+  forall (Y P : Type) (flow : P -> Q -> Y -> Q -> Y) (conv : Y -> Y -> bool) (s : sim Y P),
+    Inv2 Y P s -> i_t0 (s_int s) == 0 ->
+    has_errors Y P s = false ->
+    has_errors Y P (fst (simulate_to_steady_state Y P flow conv gen_sim_facts s)) = false ->
+    exists k : nat, (k < 1000)%nat
+      /\ reached Y P (fst (simulate_to_steady_state Y P flow conv gen_sim_facts s))
+         == reached Y P s + inject_Z (Z.of_nat (S k)) * 100.
+Proof. exact (fun Y P flow conv => steady_fresh_stamp Y P flow conv gen_sim_facts (good_steady_of_pinned _ C04_facts_pinned)). Qed.
+Print Assumptions C04_steady_stamp_exact.
+
+(** [simulate ... ; update_variable(s) ; simulate_to_steady_state] from ANY well-formed state (results of any kind,
+    also right after another steady-state run): the steady-state row is stamped at the time already reached plus a
+    whole number of search steps -- NOT in the restarted integrator's relative time (seeded change C04-4) --, the
+    accumulated index is the old index plus that stamp and stays strictly increasing *)
+Theorem C04_steady_after_override_absolute :
+  forall (Y P O : Type) (flow : P -> Q -> Y -> Q -> Y) (conv : Y -> Y -> bool) (yovr : Y -> O -> Y)
+         (s : sim Y P) (o : O),
+    Wf Y P s -> has_errors Y P s = false ->
+    has_errors Y P (fst (simulate_to_steady_state Y P flow conv gen_sim_facts
+                           (fst (update_variables Y P O yovr gen_sim_facts s o)))) = false ->
+    exists k : nat, (k < 1000)%nat
+      /\ reached Y P (fst (simulate_to_steady_state Y P flow conv gen_sim_facts
+                             (fst (update_variables Y P O yovr gen_sim_facts s o))))
+         == reached Y P s + inject_Z (Z.of_nat (S k)) * 100
+      /\ incr (index_of Y P (fst (simulate_to_steady_state Y P flow conv gen_sim_facts
+                                    (fst (update_variables Y P O yovr gen_sim_facts s o)))))
+      /\ index_of Y P (fst (simulate_to_steady_state Y P flow conv gen_sim_facts
+                              (fst (update_variables Y P O yovr gen_sim_facts s o))))
+         = index_of Y P s ++ [reached Y P (fst (simulate_to_steady_state Y P flow conv gen_sim_facts
+                                                  (fst (update_variables Y P O yovr gen_sim_facts s o))))].
+Proof. exact (fun Y P O flow conv yovr => steady_after_override_stamp Y P O flow conv yovr gen_sim_facts (good_of_pinned _ C04_facts_pinned) (good_steady_of_pinned _ C04_facts_pinned)). Qed.
+Print Assumptions C04_steady_after_override_absolute.
+
+(** non-vacuity: x' = y + time, [simulate(2); update_variable(y, -152); simulate_to_steady_state]: the iterates at
+    integrator time 100 and 200 (absolute 102 and 202) coincide, the row is stamped 202 = 2 + 2*100 *)
+Example C04_override_steady_nonvacuous :
+  let ops : list xop := [OSim 2 (Some 2%nat); OUpdVar [(1%nat, -152)]; OSteady; OUpdVar [(0%nat, 1)]; OSim 204 (Some 2%nat)] in
+  ok_hist _ _ true ops
+  /\ xindex (xrun gen_sim_facts (xnew [1; 0] [1; 0; 1; 0]) ops) = [0; 1; 2; 202; 203; 204].
+Proof. cbv zeta. split; [cbn; auto|]. vm_compute. reflexivity. Qed.
+Print Assumptions C04_override_steady_nonvacuous.
+
+(** regression witness for seeded change C04-4 (Variants.v: the shift back to absolute time moved into the
+    [elif skipfirst:] branch of _handle_simulation_results): x' = y + time,
+    [simulate(T); update_variable(y, -(T + 50(2n-1))); simulate_to_steady_state].  The pinned shape stamps the row at
+    202 (T = 2) resp. 400 (T = 300); the variant at 200 resp. 100 -- after 300, an axis that is not increasing *)
+Theorem C04_relative_stamp_refuted :
+  xindex (fst (simulate_to_steady_state (list Q) (list Q) xflow xconv pinned_facts (stamp_state 2 (-152)))) = [0; 1; 2; 202]
+  /\ xindex (fst (steady_skipshift (list Q) (list Q) xflow xconv pinned_facts (stamp_state 2 (-152)))) = [0; 1; 2; 200]
+  /\ xindex (fst (simulate_to_steady_state (list Q) (list Q) xflow xconv pinned_facts (stamp_state 300 (-350)))) = [0; 150; 300; 400]
+  /\ xindex (fst (steady_skipshift (list Q) (list Q) xflow xconv pinned_facts (stamp_state 300 (-350)))) = [0; 150; 300; 100]
+  /\ incrb (xindex (fst (steady_skipshift (list Q) (list Q) xflow xconv pinned_facts (stamp_state 300 (-350))))) = false.
+Proof. exact relative_stamp_refuted. Qed.
+Print Assumptions C04_relative_stamp_refuted.
+
+(** ** views of get_result() read BETWEEN simulation calls (model: Views.v) *)
+
+(** the regenerated fact: what a view leaves in the model it shares with the Simulator.  [C04_expected_view]
+    (ExpectedFacts.v) is [ViewLastSegment] while the finding view-read-reverts-parameter-update is recorded, and
+    [ViewRestores] once fixes/C04-views-restore-parameters.diff is in /repo (tools/c04_switch.py) *)
+Theorem C04_view_mode_pinned : gen_view_mode = C04_expected_view.
+Proof. vm_compute. reflexivity. Qed.
+Print Assumptions C04_view_mode_pinned.
+
+(** FULL statement (holds of the REPAIRED views): for ALL histories of the 8 operations with view reads anywhere in
+    between, the simulator ends in the same state, and every operation returns the same outcome and state, as in
+    the history with the reads erased -- reading results never changes what runs next, so every theorem of this file
+    applies to histories with reads as it stands *)
+Theorem C04_views_read_only :
+  forall (Y P U O : Type) (flow : P -> Q -> Y -> Q -> Y) (solve_ok : P -> Q -> Y -> Q -> bool)
+         (conv : Y -> Y -> bool) (pupd : P -> U -> P) (yovr : Y -> O -> Y)
+         (ops : list (vop U O)) (s : sim Y P),
+    vrun Y P U O flow solve_ok conv pupd yovr gen_sim_facts ViewRestores s ops
+      = run Y P U O flow solve_ok conv pupd yovr gen_sim_facts s (erase U O ops)
+    /\ vtrace_base Y P U O flow solve_ok conv pupd yovr gen_sim_facts ViewRestores s ops
+      = trace Y P U O flow solve_ok conv pupd yovr gen_sim_facts s (erase U O ops).
+Proof. exact (fun Y P U O flow solve_ok conv pupd yovr ops s => conj (vrun_erase_restores Y P U O flow solve_ok conv pupd yovr gen_sim_facts ViewRestores eq_refl ops s) (vtrace_base_erase_restores Y P U O flow solve_ok conv pupd yovr gen_sim_facts ViewRestores eq_refl ops s)). Qed.
+Print Assumptions C04_views_read_only.
+
+(** PARTIAL, for the views AS REGENERATED (whatever [gen_view_mode] is -- in particular the unrepaired code): the same
+    equality for all histories in which every view is read while the parameters in force are those recorded for the
+    last segment ([views_in_force]; the complement is the guard of the finding) *)
+Theorem C04_views_read_only_partial :
+  forall (Y P U O : Type) (flow : P -> Q -> Y -> Q -> Y) (solve_ok : P -> Q -> Y -> Q -> bool)
+         (conv : Y -> Y -> bool) (pupd : P -> U -> P) (yovr : Y -> O -> Y)
+         (ops : list (vop U O)) (s : sim Y P),
+    views_in_force Y P U O flow solve_ok conv pupd yovr gen_sim_facts gen_view_mode s ops ->
+    vrun Y P U O flow solve_ok conv pupd yovr gen_sim_facts gen_view_mode s ops
+      = run Y P U O flow solve_ok conv pupd yovr gen_sim_facts s (erase U O ops)
+    /\ vtrace_base Y P U O flow solve_ok conv pupd yovr gen_sim_facts gen_view_mode s ops
+      = trace Y P U O flow solve_ok conv pupd yovr gen_sim_facts s (erase U O ops).
+Proof. exact (fun Y P U O flow solve_ok conv pupd yovr => vrun_erase_in_force Y P U O flow solve_ok conv pupd yovr gen_sim_facts gen_view_mode). Qed.
+Print Assumptions C04_views_read_only_partial.
+
+(** where that guard holds: right after every simulate / simulate_time_course / simulate_to_steady_state call that
+    recorded a segment a view read changes NOTHING (any view mode), and the guard survives update_variable(s) and
+    further reads; a read never touches anything but the model's parameter values *)
+Theorem C04_view_after_segment_partial :
+  forall (Y P U O : Type) (flow : P -> Q -> Y -> Q -> Y) (solve_ok : P -> Q -> Y -> Q -> bool)
+         (conv : Y -> Y -> bool) (pupd : P -> U -> P) (yovr : Y -> O -> Y) (vm : view_mode)
+         (s : sim Y P) (o : op U O) (touch : bool),
+    match o with OSim _ _ | OTc _ | OSteady => True | _ => False end ->
+    s_pars (fst (run_op Y P U O flow solve_ok conv pupd yovr gen_sim_facts s o)) <> s_pars s ->
+    read_view Y P vm (fst (run_op Y P U O flow solve_ok conv pupd yovr gen_sim_facts s o)) touch
+      = fst (run_op Y P U O flow solve_ok conv pupd yovr gen_sim_facts s o).
+Proof. exact (fun Y P U O flow solve_ok conv pupd yovr vm s o touch Hk Hne => read_view_in_force Y P vm _ touch (simulating_in_force Y P U O flow solve_ok conv pupd yovr gen_sim_facts s o Hk Hne)). Qed.
+Print Assumptions C04_view_after_segment_partial.
+
+Theorem C04_view_guard_stable :
+  forall (Y P O : Type) (yovr : Y -> O -> Y) (vm : view_mode) (s : sim Y P) (o : O) (touch : bool),
+    in_force Y P s ->
+    in_force Y P (fst (update_variables Y P O yovr gen_sim_facts s o))
+    /\ in_force Y P (read_view Y P vm s touch)
+    /\ read_view Y P vm s touch = s.
+Proof. exact (fun Y P O yovr vm s o touch H => conj (in_force_update_variables Y P O yovr gen_sim_facts s o H) (conj (in_force_read_view Y P vm s touch H) (read_view_in_force Y P vm s touch H))). Qed.
+Print Assumptions C04_view_guard_stable.
+
+Theorem C04_view_touches_only_parameters :
+  forall (Y P : Type) (vm : view_mode) (s : sim Y P) (touch : bool),
+    (s_y0 (read_view Y P vm s touch) = s_y0 s /\ s_vars (read_view Y P vm s touch) = s_vars s
+     /\ s_pars (read_view Y P vm s touch) = s_pars s /\ s_shift (read_view Y P vm s touch) = s_shift s
+     /\ s_errs (read_view Y P vm s touch) = s_errs s /\ s_int (read_view Y P vm s touch) = s_int s)
+    /\ index_of Y P (read_view Y P vm s touch) = index_of Y P s.
+Proof. exact (fun Y P vm s touch => conj (read_view_only_mp Y P vm s touch) (read_view_index Y P vm s touch)). Qed.
+Print Assumptions C04_view_touches_only_parameters.
+
+(** REFUTED for the unrepaired views (finding view-read-reverts-parameter-update): x' = k*y,
+    [simulate(1); update_parameter(k, 3); get_result().variables; simulate(2)] -- the read puts k back to 1, the second
+    segment is run and recorded with k = 1; with the repaired views (and without the read) it is k = 3; the history is
+    outside the guard of [C04_views_read_only_partial] *)
+Theorem C04_view_reverts_update_refuted :
+  recorded_k (xvrun pinned_facts ViewLastSegment view_start view_hist_updated) = [1; 1]
+  /\ recorded_k (xvrun pinned_facts ViewRestores view_start view_hist_updated) = [1; 3]
+  /\ recorded_k (xrun pinned_facts view_start (erase _ _ view_hist_updated)) = [1; 3]
+  /\ ~ views_in_force (list Q) (list Q) (list (nat * Q)) (list (nat * Q)) xflow xsolve_ok xconv apply_updates apply_updates
+         pinned_facts ViewLastSegment view_start view_hist_updated.
+Proof. exact view_reverts_update_refuted. Qed.
+Print Assumptions C04_view_reverts_update_refuted.
+
+(** non-vacuity of the guard: the history of seeded change C04-6 ([simulate; update_parameter; simulate; READ;
+    simulate]) meets [views_in_force] for the unrepaired views, every segment is recorded with the values in force *)
+Example C04_views_in_force_nonvacuous :
+  views_in_force (list Q) (list Q) (list (nat * Q)) (list (nat * Q)) xflow xsolve_ok xconv apply_updates apply_updates
+    pinned_facts ViewLastSegment view_start view_hist_seeded
+  /\ recorded_k (xvrun pinned_facts ViewLastSegment view_start view_hist_seeded) = [1; 3; 3]
+  /\ recorded_k (xvrun pinned_facts ViewRestores view_start view_hist_seeded) = [1; 3; 3].
+Proof. exact view_in_force_nonvacuous. Qed.
+Print Assumptions C04_views_in_force_nonvacuous.
